@@ -1020,6 +1020,22 @@ func (r *runner) apply(w *world, st Step) (M, bool) {
 					return M{"what": "property monitor failed on an implementation response", "property": "C01", "diff": what, "property_violation": true, "step": st}, false
 				}
 			}
+			if m["e"] == "dispatch" && monitors["C08"] {
+				// "every dispatched message names the task id and counter with which a claim succeeds": the three links are the
+				// server's url, the operation, the task's id exactly as stored, and its counter
+				if sub, _ := m["sub"].(map[string]any); sub != nil && sub["k"] == "sender" {
+					if sd, _ := sub["sender"].(map[string]any); sd != nil {
+						if tk, _ := sd["task"].(map[string]any); tk != nil {
+							for op, f := range map[string]string{"claim": "claimHref", "complete": "completeHref", "heartbeat": "heartbeatHref"} {
+								want := fmt.Sprintf("%s/tasks/%s/%v/%d", w.cfg.Url, op, tk["id"], jnum(tk["counter"]))
+								if fmt.Sprint(sd[f]) != want {
+									return M{"what": "property monitor failed on the implementation", "property": "C08", "diff": fmt.Sprintf("the message for task %q (counter %d) carries the %s link %q; the link that names this task is %q", tk["id"], jnum(tk["counter"]), op, sd[f], want), "property_violation": true, "step": st}, false
+								}
+							}
+						}
+					}
+				}
+			}
 			if m["e"] == "dispatch" && monitors["C04"] && st.Op == "tick" {
 				// the decision to complete is taken in this tick, at clock st.T, against the store as it stands (w.prev):
 				// at or after the promise's timeout only the time-out form may be written
